@@ -1,4 +1,5 @@
 """C40 — Web API byte-range downloads follow RFC 7233 (web/filenode.py: FileDownloader)."""
+import os
 import re
 
 ID = "C40"
@@ -313,10 +314,13 @@ def headers_for(n, rng):
     return hs
 
 
+# Fixed corpus (direct FileDownloader path): runs first, independent of VERIF_SEED; one input per known mechanism.
 CORPUS = [
-    (0, "bytes=-5"),            # DESIGN §3 probe: suffix range on an empty file
-    (0, "bytes=0-"), (0, "bytes=0-0"), (0, "bytes=-0"),
-    (10, "bytes=10-"), (10, "bytes=11-"), (10, "bytes=10-12"), (10, "bytes=9-"), (10, "bytes=-20"), (1, "bytes=-1"),
+    (0, "bytes=-5"),            # fix 5eb3fd9, part 1 (DESIGN §3 probe): suffix range on an empty file gave 206 `bytes 0--1/0`
+    (10, "bytes=10-"), (10, "bytes=11-"), (0, "bytes=0-"),      # fix 5eb3fd9, part 2: open-ended range at/beyond EOF gave 200
+    (10, "bytes=10-12"), (10, "bytes=10-10"), (1, "bytes=9-51"), (0, "bytes=0-0"),   # seeded C40-a: `A-B` with A >= size clipped before the check -> 200
+    (0, "bytes=0-9"), (0, "bytes=1-"), (0, "bytes=0-1,3-4"),    # seeded C40-c: empty-file fast path skips range evaluation -> 200
+    (0, "bytes=-0"), (10, "bytes=9-"), (10, "bytes=-20"), (1, "bytes=-1"), (10, "bytes=2-4"), (10, "bytes=5-2"), (10, "bits=0-5"),
 ]
 
 
@@ -428,6 +432,17 @@ class RoutedWeb:
         return status, hdrs, rbody
 
 
+# Fixed routed corpus (independent of VERIF_SEED): one file state per kind, every boundary family once; these are the cases
+# that catch seeded C40-b (render_HEAD drops the Range header) and a revert of aa58e25 (HEAD omits the ETag of a CHK file).
+ROUTED_CORPUS_PLANS = [{"kind": "lit", "chain": [0]}, {"kind": "lit", "chain": [30]}, {"kind": "chk", "chain": [203]},
+                       {"kind": "sdmf", "chain": [120, 41, 260]}, {"kind": "mdmf", "chain": [120, 0]}]
+
+
+def routed_corpus_headers(n):
+    return [None, "bytes=0-", "bytes=3-10", "bytes=%d-" % n, "bytes=%d-%d" % (n, n + 10), "bytes=%d-%d" % (max(n - 1, 0), n + 20),
+            "bytes=-7", "bytes=-0", "bytes=2-5, 9-12", "bytes=9-2", "bytes=abc", "chars=0-5"]
+
+
 def make_plans(ctx, rng):
     """[{kind, chain (sizes: created, then overwritten ...)}]: literal, CHK, SDMF and MDMF; the mutable ones are
     read as created, after a shorter and after a longer overwrite (and once emptied)"""
@@ -457,7 +472,7 @@ HEAD_FIELDS = [("status", None), ("content-range", "content-range"), ("content-l
                ("accept-ranges", "accept-ranges"), ("content-type", "content-type")]
 
 
-def run_routed(ctx, plans, cases, impl, lines, hand, only=None):
+def run_routed(ctx, plans, cases, impl, lines, hand, only=None, corpus=False):
     """GET and HEAD through the real resource tree for every (file state, Range header).
     `only` = (chain, hdr, inm) restricts to one state/header (replay)."""
     import grid
@@ -469,7 +484,7 @@ def run_routed(ctx, plans, cases, impl, lines, hand, only=None):
     rng = ctx.rng
     base = grid.fresh_dir("c40")
     try:
-        with grid.Runtime(seed=ctx.seed, policy="fifo") as rt:
+        with grid.Runtime(seed=0 if corpus else ctx.seed, policy="fifo") as rt:
             g = grid.Grid(base, rt, num_servers=4, num_clients=1, k=2, happy=1, n=3, max_segment_size=64)
             c = g.clients[0]
             web = RoutedWeb(rt, c)
@@ -503,7 +518,8 @@ def run_routed(ctx, plans, cases, impl, lines, hand, only=None):
                     if only is not None:
                         pairs = [(only[1], only[2])]
                     else:
-                        pairs = [(h, None) for h in routed_headers(n, rng, ctx.tier == "thorough" and depth == 0)]
+                        pairs = [(h, None) for h in (routed_corpus_headers(n) if corpus else
+                                                     routed_headers(n, rng, ctx.tier == "thorough" and depth == 0))]
                         # conditional requests: If-None-Match with the file's own ETag, "*", a foreign tag, the tag in quotes
                         for h in (None, "bytes=1-3", "bytes=%d-" % n):
                             for inm in (("match", "star", "nonmatch", "quoted", "multi", "near") if kind in ("lit", "chk") else ("nonmatch", "star")):
@@ -609,7 +625,11 @@ def run(ctx):
         for (n, h) in CORPUS:
             for m in "GH":
                 reqs.append(("lit", n, m, h))
-        if ctx.tier == "thorough":
+        corpus_only = bool(os.environ.get("VERIF_CORPUS_ONLY"))
+        if corpus_only:
+            sizes = []
+            ctx.note("VERIF_CORPUS_ONLY: fixed corpus only")
+        elif ctx.tier == "thorough":
             sizes = list(range(0, 301)) + [rng.randrange(301, 70000) for _ in range(40)]
         else:
             sizes = sorted({0, 1, 2, 3, 255, 256, 300} | {rng.randrange(0, 301) for _ in range(ctx.budget(9, 9))}) + \
@@ -621,7 +641,7 @@ def run(ctx):
                     reqs.append((kind, n, m, h))
                 if kind == "lit" and h is not None and rng.random() < 0.05:
                     reqs.append(("fake", n, "G", h))
-        plans = make_plans(ctx, rng)
+        plans = [] if corpus_only else make_plans(ctx, rng)
     impl = []
     cases = []
     got_by_key = {}
@@ -654,6 +674,8 @@ def run(ctx):
         got_by_key[key] = (m, resp)
     lines = ["c40 %d %s %s" % (n, m, "none" if h is None else hx(h.encode("ascii"))) for (_, n, m, h) in reqs]
     hand = ([], [], [])
+    if not ctx.replay:
+        run_routed(ctx, ROUTED_CORPUS_PLANS, cases, impl, lines, hand, corpus=True)      # fixed routed corpus first
     if plans:
         run_routed(ctx, plans, cases, impl, lines, hand, only=routed_only)
     model = ctx.model(lines)
